@@ -17,7 +17,13 @@
     (or no replacement, or no spec at all: the empty string); specials with a
     non-empty replacement string without [%], or absent from the table — the
     paragraph break; a math node; an environment without text spec or with a
-    transparent one), [abstract_items] for node lists. *)
+    transparent one, or whose replacement is a template [pre%spost] — center;
+    [\item] without its optional argument: a bare macro standing for
+    ["\n  * "]), [abstract_items] for node lists.
+
+    Not covered by these theorems (replacement callables and %-templates with
+    macro arguments): accent macros, [\frac], [\sqrt], [\item[..]] — they are
+    covered by the correspondence and by the Python renderer only. *)
 From Coq Require Import NArith ZArith List Bool Arith.
 From PLV Require Import Base.PyStr Tok.Tokenizer Parse.Nodes Parse.Parser Parse.ParseWire.
 From PLV Require Import L2T.L2T L2T.L2TWire L2T.Render.
@@ -54,16 +60,16 @@ Proof. exact l2t_nodes_core. Qed.
     nodes; [cores_ok] = the hypotheses on the databases, item by item
     ([Render.core_ok]) *)
 Theorem C03_tree_level_embed :
-  forall src lt cx fmt_name env_name sym_name spc_chars verb_pos o sl st p e items,
-  cores_ok src lt fmt_name env_name sym_name spc_chars verb_pos items ->
-  node_text src lt cx o sl st (NList p e (embed_items fmt_name env_name sym_name spc_chars verb_pos items))
+  forall src lt cx fmt_name env_name wrap_name sym_name spc_chars verb_pos o sl st p e items,
+  cores_ok src lt fmt_name env_name wrap_name sym_name spc_chars verb_pos items ->
+  node_text src lt cx o sl st (NList p e (embed_items fmt_name env_name wrap_name sym_name spc_chars verb_pos items))
   = (render o sl items, st).
 Proof. exact tree_level_embed. Qed.
 
 Theorem C03_abstract_embed :
-  forall src lt fmt_name env_name sym_name spc_chars verb_pos k,
-  core_ok src lt fmt_name env_name sym_name spc_chars verb_pos k ->
-  abstract src lt (embed fmt_name env_name sym_name spc_chars verb_pos k) = Some k.
+  forall src lt fmt_name env_name wrap_name sym_name spc_chars verb_pos k,
+  core_ok src lt fmt_name env_name wrap_name sym_name spc_chars verb_pos k ->
+  abstract src lt (embed fmt_name env_name wrap_name sym_name spc_chars verb_pos k) = Some k.
 Proof. exact abstract_embed. Qed.
 
 (** the documented rules, one by one, as equations of the specification *)
@@ -74,6 +80,7 @@ Theorem C03_rules : forall (o : opts) (sl : sls),
   /\ (forall b, o_kbg o = false -> render1 o sl (KGroup b) = render o sl b)
   /\ (forall b, render1 o sl (KTransparent b) = render o sl b)
   /\ (forall b, render1 o sl (KEnvBody b) = render o sl b)
+  /\ (forall pre post b, render1 o sl (KEnvWrap pre post b) = pre ++ render o sl b ++ post)
   /\ (forall r p, render1 o sl (KSymbol r p) = r) /\ (forall r, render1 o sl (KSpecials r) = r)
   /\ (forall dl dr v b, o_math o = MMText ->
         render1 o sl (KMath false dl dr v b) = py_strip (render o (push_eq sl) b)
@@ -155,13 +162,20 @@ Proof. exact model_compositional_space. Qed.
     beta Gamma infty times ldots S ae LaTeX zzunknown cdot to are bare symbol
     macros; SPC = ~ -- --- `` '' & are replaced specials; ENV = itemize
     enumerate zzunknownenv render their body; the paragraph break is not in the
-    text table. *)
+    text table; center wraps its body in newlines; [\item] is the item
+    formatter and its only argument is the optional [\[..\]]. *)
 Theorem C03_default_tables_core :
   forallb (fun nm => transparent_macro lt0 nm && one_braced_arg nm) FMT = true
   /\ forallb (fun nm => is_some (symbol_repl lt0 nm) && no_args nm) SYM = true
   /\ forallb (fun ch => is_some (specials_repl lt0 ch) && is_some (get_specials_spec cx0 ch)) SPC = true
   /\ forallb (transparent_env lt0) ENV = true
-  /\ assoc (lt_specials lt0) [10; 10]%N = None /\ is_some (get_specials_spec cx0 [10; 10]%N) = true.
+  /\ assoc (lt_specials lt0) [10; 10]%N = None /\ is_some (get_specials_spec cx0 [10; 10]%N) = true
+  /\ wrap_env lt0 [99;101;110;116;101;114]%N = Some ([10%N], [10%N])                 (* center *)
+  /\ item_macro lt0 [105;116;101;109]%N = true                                        (* \item *)
+  /\ match get_macro_spec cx0 [105;116;101;109]%N with
+     | Some {| sp_args := APStd [a] |} => str_eqb (a_spec a) [91%N]
+     | _ => false
+     end = true.
 Proof. exact default_tables_core. Qed.
 
 (** * Non-vacuity *)
@@ -172,15 +186,15 @@ Proof. exact default_tables_core. Qed.
     hold, the model text is the specification's for every option set, and both
     are the expected strings for concrete option sets *)
 Example C03_tree_level_nonvacuous :
-  cores_ok ex_src lt0 [116;101;120;116;98;102]%N [105;116;101;109;105;122;101]%N ex_sym ex_spc (fun _ => (0, 5)) ex_items
+  cores_ok ex_src lt0 [116;101;120;116;98;102]%N [105;116;101;109;105;122;101]%N (fun _ _ => [99;101;110;116;101;114]%N) ex_sym ex_spc (fun _ => (0, 5)) ex_items
   /\ (forall o sl st,
         node_text ex_src lt0 cx0 o sl st (NList None None (ex_embed ex_items)) = (render o sl ex_items, st))
   /\ fst (node_text ex_src lt0 cx0 (ex_opts MMText sls_macros false false) sls_macros d0
                     (NList None None (ex_embed ex_items)))
-     = [97;32;98;945;99;945;100;160;8211;32;10;32;121;10;10;113;945;32;114;32;10;32;32;32;32;117;10;32;32;32;32;118;10]%N
+     = [97;32;98;945;99;945;100;160;8211;32;10;32;121;10;10;113;945;32;114;32;10;32;32;32;32;117;10;32;32;32;32;118;10;10;119;10]%N
   /\ fst (node_text ex_src lt0 cx0 (ex_opts MMWithDelims sls_alltrue true true) sls_alltrue d0
                     (NList None None (ex_embed ex_items)))
-     = [97;32;98;945;99;945;100;160;8211;32;37;32;99;10;121;10;10;92;40;113;945;114;92;41;32;92;91;10;117;10;118;10;92;93]%N.
+     = [97;32;98;945;99;945;100;160;8211;32;37;32;99;10;121;10;10;92;40;113;945;114;92;41;32;92;91;10;117;10;118;10;92;93;10;119;10]%N.
 Proof.
   split; [exact ex_items_ok|]. split; [exact ex_tree_level|]. vm_compute. split; reflexivity.
 Qed.
